@@ -152,7 +152,7 @@ def convDestructuring (e : Env) (r : Rec) (ctx : Ctx) (n : ANode) : M Doc := do
 def convParams (e : Env) (r : Rec) (ctx : Ctx) (n : ANode) (isUnnamed : Bool) : M Doc := do
   let ctx := ctx.withMode .codeCont
   let items := n.children.filter isParam
-  let single := isUnnamed && isOnlyOneAnd items (fun it =>
+  let single := isUnnamed && !n.attrs.comment && isOnlyOneAnd items (fun it =>
     !(it.kind == .named || it.kind == .spread) && !(it.kind == .destructuring || it.kind == .parenthesized))
   let ls := ({} : LS).withFold (foldStyle ctx n)
   let ls ← ls.processM e ctx n.children (convParam e r)
@@ -484,7 +484,7 @@ def dotFallback (e : Env) (r : Rec) (ctx : Ctx) (node : ANode) : M (Option Doc) 
 /-- `convert_dot_chain`. -/
 def convDotChain (e : Env) (r : Rec) (ctx : Ctx) (n : ANode) : M Doc := do
   let cs ← ({} : CS).processM e ctx (resolveDotChain n.depth n).reverse (·.kind == .fieldAccess)
-    (dotOp e) (dotRhs e) (dotFallback e r)
+    (fun st c => do pure (st, ← dotOp e c)) (dotRhs e) (dotFallback e r)
   cs.print e true false
 
 /-- `try_convert_dot_chain`. -/
@@ -504,12 +504,14 @@ def tryDotChain (e : Env) (r : Rec) (ctx : Ctx) (n : ANode) : M (Option Doc) := 
       pure (some (← convDotChain e r ctx n))
     else pure none
 
-def binOpConv (e : Env) (op : String) (c : ANode) : M (Option Doc) := do
-  if c.kind == .in_ && op == "not in" then
-    if c.text == "in" then pure (some (e.syn op)) else reject (.shape "In leaf whose text is not in")
+/-- The operator converter of `convert_binary_chain`; the state is the `seen_not` cell. -/
+def binOpConv (e : Env) (seenNot : Bool) (c : ANode) : M (Bool × Option Doc) := do
+  if c.kind == .not_ then pure (true, none)
+  else if c.kind == .in_ && seenNot then
+    if c.text == "in" then pure (false, some (e.syn "not in")) else reject (.shape "In leaf whose text is not in")
   else match binOpOfKind c.kind with
-    | some o => pure (some (← e.synLeaf c o))
-    | none => pure none
+    | some o => pure (seenNot, some (← e.synLeaf c o))
+    | none => pure (seenNot, none)
 
 def exprOpt (r : Rec) (ctx : Ctx) (c : ANode) : M (Option Doc) := do
   if isExpr c then pure (some (← r.expr ctx c)) else pure none
@@ -520,7 +522,7 @@ def convBinaryChain (e : Env) (r : Rec) (ctx : Ctx) (n : ANode) : M Doc := do
   let prec := precOf op
   let cs ← ({} : CS).processM e ctx (resolveBinaryChain prec n.depth n).reverse
     (fun node => node.kind == .binary && precOf (binaryOp node) == prec)
-    (binOpConv e op) (exprOpt r) (exprOpt r)
+    (binOpConv e) (exprOpt r) (exprOpt r)
   cs.print e false true
 
 /-- `convert_binary`. -/
